@@ -78,7 +78,11 @@ def case_strategy(draw):
                            'ifaces': draw(ifl),
                            'only': draw(st.integers(0, 3)) > 0})
     return {'ibases': ibases, 'classes': classes, 'funcs': funcs,
-            'insts': insts, 'dotted': draw(st.booleans()), 'narrow': narrow}
+            'insts': insts, 'dotted': draw(st.booleans()), 'narrow': narrow,
+            # interfaces defined by a class statement inside a function and
+            # bound as module globals (importable by name, but with a
+            # __qualname__ that is not) - seed C13h
+            'nested': draw(st.lists(st.booleans(), min_size=nI, max_size=nI))}
 
 
 def strategy(cfg):
@@ -127,10 +131,23 @@ def _run(case, out, mod, modname, marker, z):
     ifaces = []
     for i, bs in enumerate(case['ibases']):
         name = 'I%d' % i
-        iface = z['InterfaceClass'](
-            name, tuple(ifaces[b] for b in bs) or (Interface,),
-            {'attr': z['Attribute']('%s attribute doc' % marker)},
-            __doc__='%s doc of %s' % (marker, name), __module__=modname)
+        if (case.get('nested') or [False] * (i + 1))[i]:
+            ns = {'__name__': modname, 'Attribute': z['Attribute'],
+                  'BASES': tuple(ifaces[b] for b in bs) or (Interface,)}
+            exec('def make():\n'
+                 '    class %s(*BASES):\n'
+                 '        %r\n'
+                 '        attr = Attribute(%r)\n'
+                 '    return %s\n' % (
+                     name, '%s doc of %s' % (marker, name),
+                     '%s attribute doc' % marker, name), ns)
+            iface = ns['make']()
+            out.tag('interface_from_nested_class_statement')
+        else:
+            iface = z['InterfaceClass'](
+                name, tuple(ifaces[b] for b in bs) or (Interface,),
+                {'attr': z['Attribute']('%s attribute doc' % marker)},
+                __doc__='%s doc of %s' % (marker, name), __module__=modname)
         setattr(mod, name, iface)
         ifaces.append(iface)
 
